@@ -44,6 +44,32 @@ def run(R):
         acc = si.calls(pat='StreamExt::next')
         R.check(len(acc) == 1 and 'incoming' in show(si.origin(acc[0][1]['args'][0])), 'C13.R1', 'accept-site', site(si), 'incoming.next() sites: %d' % len(acc))
 
+    # the accept loop looks at the signal on every turn: its select! either starts at a random branch (not `biased;`) or polls
+    # the signal before the listener (a biased select with the listener first never polls the signal while connections keep arriving)
+    with R.guard('C13.R1', 'select'):
+        sels = []
+        for c in tonic.bodies:
+            if c.kind != 'closure' or not c.path.startswith(si.path + '::'):
+                continue
+            polls = [(bb, t) for bb, t in c.calls(name='poll') if 'Future::poll' in (t.get('fn') or '')]
+            sigp = [(bb, t) for bb, t in polls if re.search(r'server::Fuse<', str(t.get('self_ty')))]
+            accp = [(bb, t) for bb, t in polls if re.search(r'stream_ext::next::Next<', str(t.get('self_ty')))]
+            if sigp and accp:
+                sels.append((c, sigp, accp))
+        R.check(len(sels) == 1, 'C13.R1', 'accept-select', site(si), 'select! closures polling both the shutdown signal and incoming.next(): %d' % len(sels))
+        for c, sigp, accp in sels:
+            R.saw(c)
+            fair = bool(c.calls(name='thread_rng_n'))
+
+            def branch_ix(bb_):
+                for s_, vals, tm in c.edge_guards(bb_):
+                    if show(tm).startswith('Rem(') and len(vals) == 1 and isinstance(vals[0], int):
+                        return vals[0]
+                return None
+            si_, ai_ = branch_ix(sigp[0][0]), branch_ix(accp[0][0])
+            R.check(fair or (si_ is not None and ai_ is not None and si_ < ai_), 'C13.R1', 'signal-polled-every-turn', site(c, sigp[0][0]),
+                    'random start branch: %r; branch order signal=%r listener=%r (biased with the listener first starves the signal under a steady stream of connections: connections keep being accepted after the signal)' % (fair, si_, ai_))
+
     # ---------------------------------------------------------------- R2 order on the graceful edge
     R.describe('C13.R2', 'graceful edge: send -> drop(own receiver) -> closed().await -> return, on every path; the non-graceful edge returns without waiting')
     with R.guard('C13.R2'):
